@@ -11,11 +11,28 @@ import StraxModel.Lemmas.Copy
 
   Every preservation theorem is a composition of `Strax.C03.loaded_is_rechunker_output` /
   `Strax.C03.roundtrip_plain_storable` / `Strax.C03.meta_consistent` with
-  `Strax.C07.rechunk_stream` (through `Strax.Copy.roundtrip_strong`, Lemmas/Copy.lean), for ALL
+  `Strax.C07.rechunk_stream_partial` (through `Strax.Copy.roundtrip_strong`, Lemmas/Copy.lean), for ALL
   stored layouts: the hypothesis on the stored data is only that it LOADS (`loadDir src = .ok s`)
   to a C07-law-abiding stream (`Strax.LawAbiding s`: every chunk well-formed and un-annotated,
   adjacent ranges, one data type and run) of a plain run.  `rows s` is the concatenation of the row
   lists; rows carry opaque identities, so `rows a = rows b` is "bit-identical rows in the same order".
+
+  SCOPE — why most preservation theorems are named `…_partial`.  The property quantifies over "all
+  stored layouts".  The theorems below cover every stored layout of an ORDINARY run: the hypotheses
+  `Strax.LawAbiding s` (C07: chunks without `subruns` annotations), `rid.startsWith "_" = false` and
+  `hdr.runId.startsWith "_" = false` exclude super-run data (run id `_…`, chunks carrying `subruns`),
+  because the theorems they are composed of do: `Strax.C07.rechunk_stream_partial` and
+  `Strax.C03.roundtrip_rechunk_partial` are proved for plain streams only.  Full statement of each
+  `…_partial` theorem: the same conclusion with `Strax.LawAbiding s` replaced by C03's `lawAbidingB s`
+  + `runOkB rid` (annotated chunks and super-run ids admitted).  What is missing: the full-strength
+  stream theorem of the rechunker on annotated chunks (C07 has `rechunk_stream_annotated_partial`) and
+  "restore keeps an annotated stream law-abiding".  Without rechunking the C03 theorem
+  `roundtrip_plain_storable` already covers super-run chunks, and `loaded_is_rechunker_output` covers
+  them relative to the rechunker.  `per_chunk_merge_partial` is additionally restricted to ONE
+  per-chunked dependency and a stateless chunk-wise plugin (strax itself refuses per-chunk processing
+  of super-runs, so the plain-run hypothesis is the property's scope there).  The check generates
+  ordinary-run data only (checks/props/c16.py ASSUMPTIONS).  The remaining theorems (D24 / D25
+  behaviour, key tagging, merge key) have no such restriction.
 
   Compressors are the identity on rows in the model (validated by the byte-level oracle of the
   check); the compressor / target-size fields of the metadata are checked by the oracle.
@@ -32,7 +49,7 @@ chunk carries the target size and data type of the destination metadata, every b
 boundary of the source or lies strictly inside a row-free gap; without rechunking the copy is
 chunk for chunk; and the destination metadata agrees with the destination files
 (`MetaConsistent`, the statement of `Strax.C03.meta_consistent`). -/
-theorem copy_preserves (src : Dir) (s : List Chunk) (rid : String) (rechunk : Bool) (rechunkTo : Nat)
+theorem copy_preserves_partial (src : Dir) (s : List Chunk) (rid : String) (rechunk : Bool) (rechunkTo : Nat)
     (hload : loadDir src = .ok s) (hl : Strax.LawAbiding s = true)
     (hrid : s.head?.bind (·.runId) = some rid) (hplain : rid.startsWith "_" = false)
     (hmd : src.1.hdr.runId.startsWith "_" = false) (ht : rechunk = true → 1 ≤ rechunkTo) :
@@ -75,7 +92,7 @@ theorem copy_preserves (src : Dir) (s : List Chunk) (rid : String) (rechunk : Bo
     | true =>
       have hmd' : (copyHeader src.1.hdr true rechunkTo).runId.startsWith "_" = false := by simpa using hmd
       rw [hmd'] at hre
-      obtain ⟨out', hre', hrows', _⟩ := Strax.C07.rechunk_stream
+      obtain ⟨out', hre', hrows', _⟩ := Strax.C07.rechunk_stream_partial
         (s.map (setTarget (copyHeader src.1.hdr true rechunkTo).target)) (lawAbiding_map_setTarget _ s hl)
         (by
           intro c hc
@@ -107,7 +124,7 @@ only the first — receives data that loads to exactly the rows of the source, o
 law-abiding, with metadata that agrees with its files.  The variant with ONE loader created before
 the loop is a different model (`fresh = false`) for which this is false:
 `copy_shared_loader_counterexample`. -/
-theorem copy_to_all_preserves (src : Dir) (s : List Chunk) (rid : String) (rechunk : Bool) (rechunkTo nTargets : Nat)
+theorem copy_to_all_preserves_partial (src : Dir) (s : List Chunk) (rid : String) (rechunk : Bool) (rechunkTo nTargets : Nat)
     (hload : loadDir src = .ok s) (hl : Strax.LawAbiding s = true)
     (hrid : s.head?.bind (·.runId) = some rid) (hplain : rid.startsWith "_" = false)
     (hmd : src.1.hdr.runId.startsWith "_" = false) (ht : rechunk = true → 1 ≤ rechunkTo) :
@@ -119,7 +136,7 @@ theorem copy_to_all_preserves (src : Dir) (s : List Chunk) (rid : String) (rechu
         Strax.LawAbiding loaded = true ∧ boundaryRuleB s loaded = true ∧
         MetaConsistent (copyHeader src.1.hdr rechunk rechunkTo) dst.1 dst.2 out ∧ rows out = rows s := by
   obtain ⟨dst, loaded, out, h1, h2, h3, h4, h5, h6, _, _, h9, _, h11, h12⟩ :=
-    copy_preserves src s rid rechunk rechunkTo hload hl hrid hplain hmd ht
+    copy_preserves_partial src s rid rechunk rechunkTo hload hl hrid hplain hmd ht
   have hall : copyToAll Generated.getSplitsArgmin0 loaderPerTarget src rechunk rechunkTo nTargets =
       List.replicate nTargets (.ok dst) := by
     simp only [copyToAll, loaderPerTarget, if_true]
@@ -139,7 +156,7 @@ path with it, the destination then being gone; never a temp directory left), loa
 rows of the source in the same order, with the same range, run and laws of chunking, every new
 boundary an old one or strictly inside a row-free gap; its metadata agrees with its files; and
 without `replace` the source directory is what it was. -/
-theorem standalone_rechunk_preserves (st : Store) (src : Dir) (s : List Chunk) (rid : String)
+theorem standalone_rechunk_preserves_partial (st : Store) (src : Dir) (s : List Chunk) (rid : String)
     (replace rechunk : Bool) (target : Option Nat)
     (hsrc : st.src = some src) (hal : st.aliased = false)
     (hload : loadDir src = .ok s) (hl : Strax.LawAbiding s = true)
@@ -195,9 +212,9 @@ theorem standalone_rechunk_preserves (st : Store) (src : Dir) (s : List Chunk) (
 data: the source directory is exactly what it was — or, only when `replace` was requested and only
 after every write and the closing rename of the destination happened, it has been removed while
 the complete new data `new` sits in the destination, or it already is `new`.  `new` loads to the
-rows of the source (`standalone_rechunk_preserves`).  Without `replace` the source is untouched
+rows of the source (`standalone_rechunk_preserves_partial`).  Without `replace` the source is untouched
 at every prefix. -/
-theorem source_intact_unless_replace (st : Store) (src : Dir) (s : List Chunk) (rid : String)
+theorem source_intact_unless_replace_partial (st : Store) (src : Dir) (s : List Chunk) (rid : String)
     (replace rechunk : Bool) (target : Option Nat)
     (hsrc : st.src = some src) (hal : st.aliased = false)
     (hload : loadDir src = .ok s) (hl : Strax.LawAbiding s = true)
@@ -230,7 +247,7 @@ theorem source_intact_unless_replace (st : Store) (src : Dir) (s : List Chunk) (
 
 /-- the operations that precede the removal of the source are: create the temp directory, write
 every chunk file, close (metadata flush + rename) — the destination is complete before `rm` -/
-theorem replace_removes_last (st : Store) (src : Dir) (s : List Chunk) (rid : String) (rechunk : Bool)
+theorem replace_removes_last_partial (st : Store) (src : Dir) (s : List Chunk) (rid : String) (rechunk : Bool)
     (target : Option Nat) (hsrc : st.src = some src) (hal : st.aliased = false)
     (hload : loadDir src = .ok s) (hl : Strax.LawAbiding s = true)
     (hrid : s.head?.bind (·.runId) = some rid) (hplain : rid.startsWith "_" = false)
@@ -303,7 +320,7 @@ theorem copy_shared_loader_counterexample :
 /-- Loading stored data with `rechunk_on_load` (any source size of at least one row) succeeds and
 yields a law-abiding stream with exactly the stored rows in order, the same overall range, data
 type and run; chunks are only ever split: every stored chunk start is still a chunk start. -/
-theorem rechunk_on_load_preserves (d : Dir) (s : List Chunk) (sourceSize : Nat) (hs : 1 ≤ sourceSize)
+theorem rechunk_on_load_preserves_partial (d : Dir) (s : List Chunk) (sourceSize : Nat) (hs : 1 ≤ sourceSize)
     (hload : loadDir d = .ok s) (hl : Strax.LawAbiding s = true) :
     ∃ out, rechunkOnLoad Generated.getSplitsArgmin0 sourceSize d = .ok out ∧
       rows out = rows s ∧ Strax.LawAbiding out = true ∧
@@ -317,7 +334,7 @@ theorem rechunk_on_load_preserves (d : Dir) (s : List Chunk) (sourceSize : Nat) 
 
 /-- every piece of a chunk split on load starts strictly inside the chunk at a time no row of the
 chunk touches, and the pieces keep the chunk's data type, run and target size -/
-theorem rechunk_on_load_cuts_in_gaps (sourceSize : Nat) (hs : 1 ≤ sourceSize) (c : Chunk) (hg : c.good = true) :
+theorem rechunk_on_load_cuts_in_gaps_partial (sourceSize : Nat) (hs : 1 ≤ sourceSize) (c : Chunk) (hg : c.good = true) :
     ∃ ps, splitLoaded Generated.getSplitsArgmin0 sourceSize c = .ok ps ∧ rows ps = c.rows ∧
       (∀ x ∈ ps, x.dataType = c.dataType ∧ x.runId = c.runId ∧ x.target = c.target) ∧
       ∀ t ∈ (ps.map (·.start)).tail, c.start < t ∧ t < c.stop ∧ ∀ r ∈ c.rows, ¬ (r.time ≤ t ∧ t ≤ r.endt) := by
@@ -359,7 +376,7 @@ plugin (`ChunkWise`); plugins with several dependencies (the connector checks of
 `__assign_chunk_number_to_plugin`) and plugin kinds that carry state between chunks (refused by
 strax: LoopPlugin, OverlapWindowPlugin) are outside; `per_chunk_keys_distinct` likewise tags a
 single data type. -/
-theorem per_chunk_merge {f : Chunk → Except Err Chunk} {dt : String} {tt : Nat} {whole : List Row → List Row}
+theorem per_chunk_merge_partial {f : Chunk → Except Err Chunk} {dt : String} {tt : Nat} {whole : List Row → List Row}
     (hf : ChunkWise f dt tt) (hhom : ChunkHomRows f whole)
     (groups : List (List Chunk)) (jobHdrs : List Header) (hdr : Header) (rid : String)
     (rechunkOnSave rechunk : Bool) (rechunkTo : Nat)
@@ -398,7 +415,7 @@ theorem per_chunk_merge {f : Chunk → Except Err Chunk} {dt : String} {tt : Nat
   · rw [hp.stop_eq, hLlast]
 
 /-- the grouping does not matter: two groupings of the same dependency give the same rows -/
-theorem per_chunk_merge_grouping_independent {f : Chunk → Except Err Chunk} {dt : String} {tt : Nat}
+theorem per_chunk_merge_grouping_independent_partial {f : Chunk → Except Err Chunk} {dt : String} {tt : Nat}
     {whole : List Row → List Row} (hf : ChunkWise f dt tt) (hhom : ChunkHomRows f whole)
     (g1 g2 : List (List Chunk)) (h1 h2 : List Header) (hdr : Header) (rid : String)
     (ros re : Bool) (rt : Nat) (hsame : g1.flatten = g2.flatten)
@@ -413,9 +430,9 @@ theorem per_chunk_merge_grouping_independent {f : Chunk → Except Err Chunk} {d
       perChunkPipeline Generated.getSplitsArgmin0 f h2 ros g2 re rt hdr = .ok d2 ∧
       loadDir d1 = .ok l1 ∧ loadDir d2 = .ok l2 ∧ rows l1 = rows l2 := by
   obtain ⟨d1, l1, _, _, a1, a2, _, _, a5, _⟩ :=
-    per_chunk_merge hf hhom g1 h1 hdr rid ros re rt hl1 hg1 hn1 hl hrun hplain hj1 hmd htt hrt
+    per_chunk_merge_partial hf hhom g1 h1 hdr rid ros re rt hl1 hg1 hn1 hl hrun hplain hj1 hmd htt hrt
   obtain ⟨d2, l2, _, _, b1, b2, _, _, b5, _⟩ :=
-    per_chunk_merge hf hhom g2 h2 hdr rid ros re rt hl2 hg2 hn2 (hsame ▸ hl) (hsame ▸ hrun) hplain hj2 hmd htt hrt
+    per_chunk_merge_partial hf hhom g2 h2 hdr rid ros re rt hl2 hg2 hn2 (hsame ▸ hl) (hsame ▸ hrun) hplain hj2 hmd htt hrt
   exact ⟨d1, d2, l1, l2, a1, b1, a2, b2, by rw [a5, b5, hsame]⟩
 
 /-- non-vacuity: a row-wise filter (the harness plugin `Tgt`) is such a computation -/
